@@ -195,6 +195,7 @@ package core
 //@   tag C18 C01 C02 C08
 //@   requires CoreScanInv(core) && keyword != nil && keyword.file == core.scanner.file && keyword.begin <= len(keyword.file.content)
 //@   ensures [C18] old(has(core.bannedDirectives, 23)) ==> ret != nil && ret.file == keyword.file && ret.index == keyword.begin && unchanged() && ioCount == old(ioCount)
+//@   ensures [C02] ret == nil ==> core.currentDirective == nil
 
 //@ func (*JApiCore).addMacro
 //@   tag C18 C07 C11 C01 C02
